@@ -11,7 +11,9 @@ fn values() -> Vec<StunAttribute> {
     let v4 = IpAddr::V4(Ipv4Addr::new(192, 0, 2, 1));
     let v6 = IpAddr::V6(Ipv6Addr::new(0x2001, 0xdb8, 0x1234, 0x5678, 0x11, 0x2233, 0x4455, 0x6677));
     let mut v: Vec<StunAttribute> = Vec::new();
-    for ip in [v4, v6] {
+    // an IPv4-mapped IPv6 address is an IPv6 address on the wire (family 2, 16 bytes) and comes back as one
+    let v6m = IpAddr::V6(Ipv6Addr::new(0, 0, 0, 0, 0, 0xffff, 0xc000, 0x0201));
+    for ip in [v4, v6, v6m] {
         for port in [0u16, 1, 0x2112, 0xffff] {
             v.push(MappedAddress::new(ip, port).into());
             v.push(AlternateServer::new(ip, port).into());
